@@ -210,7 +210,7 @@ func (p *party) Sign(ctx context.Context, msgHash []byte) ([]byte, error) {
 	end := make(chan *common.SignatureData, 1)
 
 	msgToSign := big.NewInt(0).SetBytes(msgHash)
-	party := signing.NewLocalParty(msgToSign, p.params, *p.shareData, p.out, end)
+	party := signing.NewLocalParty(msgToSign, p.params, *p.shareData, p.out, end, len(msgHash))
 
 	var endWG sync.WaitGroup
 	endWG.Add(1)
@@ -230,7 +230,7 @@ func (p *party) Sign(ctx context.Context, msgHash []byte) ([]byte, error) {
 		case <-ctx.Done():
 			return nil, fmt.Errorf("signing timed out: %w", ctx.Err())
 		case sigOut := <-end:
-			if !bytes.Equal(sigOut.M, msgToSign.Bytes()) {
+			if !bytes.Equal(sigOut.M, msgHash) {
 				return nil, fmt.Errorf("message we requested to sign is %s but actual message signed is %s",
 					base64.StdEncoding.EncodeToString(msgHash),
 					base64.StdEncoding.EncodeToString(sigOut.M))
